@@ -151,6 +151,23 @@ def applyC (rule : Pump.Rule) (c : Comp) : CStep → Comp × COut
   | .steal => ({ c with p := Pump.stepR rule c.p .deq }, .unit)
   | .pumpExit => ({ c with p := Pump.stepR rule c.p .exit }, .unit)
 
+/-- `l` with its `k`-th element moved to the front. -/
+def moveFront {α : Type} (l : List α) (k : Nat) : List α :=
+  match l[k]? with
+  | some x => x :: l.eraseIdx k
+  | none => l
+
+/-- `deliverDropK r k`: the goroutine carrying the `k`-th held-back drop notice of reader `r` runs
+(the Go scheduler may run the goroutines `Reader.Close` spawned in any order; the machine's own
+step `deliverDrop r` takes the oldest).  It is the step `deliverDrop r` after moving that notice
+to the front of `drops r`.  It is not a `CStep` of the machine the theorems quantify over:
+`C03.drop_notices_commute` shows that every delivery order leaves the same writer and the same
+emitted responses as the oldest-first order, which is what the theorems cover; the driver uses it
+to replay the random order in which the harness releases the notices. -/
+def deliverDropK (rule : Pump.Rule) (c : Comp) (r : RId) (k : Nat) : Comp × COut :=
+  applyC rule { c with w := { c.w with drops := fun x => if x = r then moveFront (c.w.drops r) k else c.w.drops x } }
+    (.w (.deliverDrop r))
+
 def runC (rule : Pump.Rule) (c : Comp) : List CStep → Comp
   | [] => c
   | s :: h => runC rule (applyC rule c s).1 h
